@@ -186,6 +186,19 @@ def gen_F(g: docops.Gen) -> Optional[dict]:
                        'foreign': {'tok': 'BlockComment', 'v': 'foreign', 'indent': ''}, 'fault': 'F5_comment_refusal'})
         st = owner.token_store
         if st is not None:
+            # partly findable list: one comment the wrapper can reach plus one it cannot
+            try:
+                span = set(id(t) for t in owner.tokens)
+            except Exception:
+                span = set()
+            reach_un = [i for i, t in enumerate(st) if isinstance(t, BlockComment) and not t.claimed and id(t) in span]
+            items_c = [i for i, t in enumerate(st) if isinstance(t, BlockComment) and any(t is x for x in sess.resolve(ref))]
+            if reach_un:
+                faults.append({'op': 'claim', 't': ref, 'how': 'claim_inter', 'subset': [rng.choice(reach_un)],
+                               'foreign': {'tok': 'BlockComment', 'v': 'foreign', 'indent': ''}, 'fault': 'F5_comment_refusal'})
+            if items_c:
+                faults.append({'op': 'claim', 't': ref, 'how': 'unclaim_inter', 'subset': [rng.choice(items_c)],
+                               'foreign': {'tok': 'BlockComment', 'v': 'foreign', 'indent': ''}, 'fault': 'F5_comment_refusal'})
             claimed = [i for i, t in enumerate(st) if isinstance(t, BlockComment) and t.claimed]
             if claimed:
                 faults.append({'op': 'claim', 't': ref, 'how': 'claim_inter', 'subset': [rng.choice(claimed)], 'fault': 'F5_comment_refusal'})
